@@ -71,6 +71,8 @@ def contracts(reg):
         note="for well-formed argv (after argparse accepted the arguments)",
     ))
     install_cli(reg)
+    from contracts import c01_parser
+    out.append(c01_parser.contract())
     return out
 
 
@@ -185,9 +187,9 @@ def install_cli(reg):
     reg.ext_models["json.dumps"] = m_json_dumps
     reg.ext_models["json.dump"] = m_json_dump
     reg.method_models[("ArgParser", "parse_known_args")] = m_parse
-    from pyvc.contracts import FnContract as _F
-    reg.add(_F(target="sharepoint2text/cli.py::_build_parser", params=[], assumed=True,
-               result_maker=lambda ex, st, ctx: VExt("ArgParser"), note="argparse parser construction (assumed total)"))
+    # `_build_parser` itself is under a verified contract since round 7 (contracts/c01_parser.py; it was an assumed total constructor)
+    from contracts import c01_parser
+    c01_parser.install(reg)
 
 
 # ------------------------------------------------------------ termination --
@@ -338,6 +340,9 @@ EXTRA = EXTRA + [regex_backtracking]
 from contracts import c01_attach as _att  # noqa: E402
 
 EXTRA = EXTRA + list(_att.EXTRA)
+from contracts import c01_parser as _prs  # noqa: E402
+
+EXTRA = EXTRA + [_prs.validate_model]
 
 BOUNDED = ["regex patterns whose position automaton has EDA are decided by a BOUNDED pumping experiment on CPython's matcher (decreases#regex-eda-pump-*: "
            "k <= 100 pumps, every witness cycle x 13 suffixes x the match modes the module uses; pristine: rtf_extractor._RE_PICT); polynomial backtracking of high degree is not decided",
@@ -353,6 +358,7 @@ for _rel, _fn in registered_extractors():
 EXECUTOR_KW["sharepoint2text/__init__.py::read_file"] = {"abstract": True, "inline_calls": False, "inline_local": True}
 EXECUTOR_KW["sharepoint2text/parsing/extractors/archive_extractor.py::_process_archive_entry"] = {"abstract": True, "inline_calls": False, "inline_local": True}
 EXECUTOR_KW["sharepoint2text/cli.py::main"] = {"abstract": True, "inline_calls": False, "inline_local": True}
+EXECUTOR_KW["sharepoint2text/cli.py::_build_parser"] = {"abstract": True, "inline_calls": False}
 from contracts import readfile as _rf  # noqa: E402
 from contracts import c01_logging as _lg  # noqa: E402
 
